@@ -527,9 +527,12 @@ STATIC = ["C05_collect_value", "C05_add_accepts_iff", "C05_add_order_irrelevant"
 def build_cases(ctx, n_valid, n_bad, n_boundary):
     from symplyphysics import Quantity  # pylint: disable=import-outside-toplevel
     from symplyphysics.core.dimensions import collect_quantity_factor_and_dimension as cq  # pylint: disable=import-outside-toplevel
+    from sympy.physics.units.systems.si import SI  # pylint: disable=import-outside-toplevel
     rng = ctx.rng
     cases = []
     hist = {}
+    registry_mismatch = []
+    registered = []
 
     def add(expr, stream):
         if stream != "boundary" and not in_modelled_domain(expr):
@@ -552,6 +555,12 @@ def build_cases(ctx, n_valid, n_bad, n_boundary):
 
         def ctor():
             q = Quantity(expr, dimension=override) if override is not None else Quantity(expr)
+            # the SI unit-system tables (the `state` the property names) must hold what the object reports
+            reg_sf, reg_dim = SI.get_quantity_scale_factor(q), SI.get_quantity_dimension(q)
+            if qx.val_class(reg_sf) != qx.val_class(q.scale_factor) or qx.dim_vec(reg_dim) != qx.dim_vec(q.dimension):
+                registry_mismatch.append((str(expr)[:200], str(reg_sf)[:80], str(reg_dim), str(q.scale_factor)[:80], str(q.dimension)))
+            if len(registered) < 400:
+                registered.append((q, qx.val_class(q.scale_factor), qx.dim_vec(q.dimension), str(expr)[:200]))
             return q.scale_factor, q.dimension
         try:
             obs2 = qx.cres_of_impl(ctor)
@@ -577,6 +586,18 @@ def build_cases(ctx, n_valid, n_bad, n_boundary):
             add(g.expr(vec, rng.choice([2, 3, 4])), "malformed")
     for i in range(n_boundary):
         add(boundary(rng, i), "boundary")   # every curated case is run (cyclically), not a random subset
+    # history: what was registered for the first quantities is still there after thousands of later constructions
+    for q, vc, dv, desc in registered:
+        try:
+            now = (qx.val_class(SI.get_quantity_scale_factor(q)), qx.dim_vec(SI.get_quantity_dimension(q)), qx.val_class(q.scale_factor), qx.dim_vec(q.dimension))
+        except Exception as e:  # pylint: disable=broad-except
+            now = f"{type(e).__name__}: {e}"[:120]
+        if now != (vc, dv, vc, dv):
+            registry_mismatch.append((desc, "after later constructions", str(now)[:200], str(vc), str(dv)))
+    for mm in registry_mismatch[:10]:
+        ctx.violation(f"C05:registry:{mm[0]}", f"SI unit-system tables disagree with the constructed quantity for {mm[0][:120]}: {mm[1:]}",
+            {"kind": "violation", "stream": "registry", "expr": mm[0], "registered_vs_object": [str(x) for x in mm[1:]]}, True)
+    hist[("registry", "rechecked-after-history")] = len(registered)
     return cases, hist
 
 
